@@ -63,6 +63,8 @@ def run(repo, tier):
             sites.add((r['fn'], r['node'].lineno))
     rep.analysed['refusal sites reached'] = len(sites)
     encprops.check_registers(rep, facts, 'R6.registers')
+    # text front end: an operand token of an accepted line may not be silently ignored (c.lwsp x1, 8(x9) must not assemble as sp-relative)
+    encprops.check_ignored_tokens(rep, facts, 'R6.ignored-operand')
     check_bake_identity(rep, facts, 'R6.bake-identity')
     # an operand is the integer its expression evaluates to: an expression whose value is not an integer (7/2, 2047.9) is
     # unrepresentable and has to be refused, not rounded into range (the rule itself lives with C11)
